@@ -11,3 +11,87 @@ def judge(prop, mm):
         except Exception as e:  # a judge must never turn a tie break into a crash
             return None
     return None
+
+
+import runner
+
+
+def _ctx(mm):
+    sc = runner.serve_case(mm['case'])
+    parts = runner.split_resp(mm['impl'])
+    r = runner.parse_resp(parts[0])
+    bits = parts[1] if len(parts) > 1 else '---'
+    cfg = sc['cfg'].split('|') if sc['cfg'] else None
+    return sc, r, bits, cfg
+
+
+def changed(sc, r, k):
+    return r['hdrs'].get(k) != sc['pre'].get(k)
+
+
+def judge_C16(mm):
+    """Props/C16.lean on the implementation's own response: debug off, preflight."""
+    if not mm['case'].startswith('serve\t'):
+        return None
+    sc, r, bits, cfg = _ctx(mm)
+    if r is None or sc['debug'] != '0' or not runner.is_preflight(sc):
+        return None
+    if r['next'] != '0':
+        return None  # C11's business
+    status = int(cfg[6]) if cfg[6] != '0' else 204
+    others = [k for k in set(r['hdrs']) | set(sc['pre']) if k != runner.H_VARY and changed(sc, r, k)]
+    if r['status'] == str(status):
+        star, true_, starauth = runner.hx('*'), runner.hx('true'), runner.hx('*,authorization')
+        adm = [[star], [true_], [starauth]]
+        ma = int(cfg[4])
+        if ma != 0:
+            adm.append([runner.hx('0' if ma == -1 else str(ma))])
+        for k in (runner.H_ORIGIN, runner.H_ACRM):
+            if sc['req'].get(k):
+                adm.append(sc['req'][k][:1])
+        if runner.H_ACRH in sc['req']:
+            adm.append(sc['req'][runner.H_ACRH])
+        for k in others:
+            if r['hdrs'].get(k) not in adm:
+                return 'successful debug-off preflight carries a value of inadmissible provenance under %s' % bytes.fromhex(k).decode()
+        return None
+    if others:
+        return 'failing debug-off preflight (status %s) changes headers other than Vary: %s' % (r['status'], [bytes.fromhex(k).decode() for k in others])
+    if r['status'] != '403':
+        return 'failing debug-off preflight has status %s, neither the failure status nor the configured success status' % r['status']
+    return None
+
+
+def judge_C03(mm):
+    """Props/C03.lean (C03Spec) on the implementation's own response; 'allowed' is the harness's decision bit."""
+    if not mm['case'].startswith('serve\t'):
+        return None
+    sc, r, bits, cfg = _ctx(mm)
+    if r is None:
+        return None
+    origins = cfg[0].split(',') if cfg[0] != '~' else []
+    allow_all = runner.hx('*') in origins
+    cred = cfg[1] == '1'
+    first_origin = (sc['req'].get(runner.H_ORIGIN) or [None])[0]
+    allowed = len(bits) > 1 and bits[1] == '1'
+    origin_ok = allow_all or (first_origin is not None and allowed)
+    pf = runner.is_preflight(sc)
+    H = r['hdrs']
+    acao = H.get(runner.H_ACAO)
+    echo = first_origin is not None and acao == [first_origin] and allowed
+    if changed(sc, r, runner.H_ACAO):
+        if not ((acao == [runner.hx('*')] and allow_all and not cred) or echo):
+            return 'Access-Control-Allow-Origin %s is neither `*` for a non-credentialed allow-all configuration nor the echo of an allowed first Origin value' % acao
+    if changed(sc, r, runner.H_ACAC):
+        if not (H.get(runner.H_ACAC) == [runner.hx('true')] and cred and echo):
+            return 'Access-Control-Allow-Credentials emitted without credentialed access and an echoed allowed origin'
+    if not origin_ok:
+        for k in runner.CORS_RESP:
+            if changed(sc, r, k):
+                return 'request without an allowed origin got %s' % bytes.fromhex(k).decode()
+    for k in (runner.H_ACAM, runner.H_ACAH, runner.H_ACAPN, runner.H_ACMA):
+        if changed(sc, r, k) and not pf:
+            return '%s on a non-preflight response' % bytes.fromhex(k).decode()
+    if changed(sc, r, runner.H_ACEH) and pf:
+        return 'Access-Control-Expose-Headers on a preflight response'
+    return None
